@@ -31,6 +31,14 @@ def run(R, job):
         yield "tagify-list", core.Tag("div", Tg(core.TagList(s))).tagify()
         yield "inline-parent", core.Tag("span", s, _add_ws=False)
         yield "siblings", core.Tag("div", core.Tag("b", "x"), s, core.Tag("i"))
+        dep = core.HTMLDependency("d", "1.0")
+        yield "after-metadata", core.Tag("div", dep, s)
+        yield "before-metadata", core.Tag("div", s, core.MetadataNode())
+        t = core.Tag("div", s); t.insert(0, core.MetadataNode()); yield "metadata-inserted-first", t
+        yield "tagify-dep-text", core.Tag("div", Tg(core.TagList(dep, s))).tagify()
+        yield "inline-after-metadata", core.Tag("span", dep, s, _add_ws=False)
+        yield "list", core.TagList(s)
+        yield "deep", core.Tag("div", core.Tag("p", core.Tag("span", s, _add_ws=False)))
     strs = [("".join(r.choice(META + ctx.texts) for _ in range(r.choice([1, 1, 2, 3, 5])))) for _ in range(n)] + META + [s for s in ctx.texts]
     for s in strs:
         e = expected(s)
@@ -42,7 +50,15 @@ def run(R, job):
             out = t.get_html_string()
             ok = e in out and out.count("<") == out.count("</") * 2 - (0) if False else e in out
             # exact expectation for the simple shapes
-            if how in ("ctor", "nested", "append", "extend", "children", "tagify", "tagify-list"):
+            if how in ("after-metadata", "before-metadata", "metadata-inserted-first", "tagify-dep-text"):
+                ok = out == "<div>" + e + "</div>"
+            elif how == "inline-after-metadata":
+                ok = out == "<span>" + e + "</span>"
+            elif how == "list":
+                ok = out == e
+            elif how == "deep":
+                ok = out == "<div>\n  <p>\n    <span>" + e + "</span>\n  </p>\n</div>"
+            elif how in ("ctor", "nested", "append", "extend", "children", "tagify", "tagify-list"):
                 ok = out == "<div>" + e + "</div>"
             elif how == "inline-parent":
                 ok = out == "<span>" + e + "</span>"
